@@ -1,4 +1,77 @@
-import LZ4V.Spec.Frame
-/-! # C13 — property theorems (in progress) -/
+import LZ4V.Proofs.WRProof
+/-!
+# C13 — multi-threaded CLI pipelines are correct under every thread schedule (model part)
+
+`Model.Pool.Step` has one constructor per critical section of `programs/threadpool.c` as used by the compression
+pipelines of `programs/lz4io.c`; ANY enabled step may fire, so the theorems quantify over every schedule, every choice of
+which waiter a signal wakes, and spurious wake-ups (a spurious wake-up re-tests a guard and changes no state).
+Queue capacity and ring sizes come from the regenerated `Gen` layer / the `TPool_create` call sites.
+-/
 namespace LZ4V.C13
+open LZ4V.Model LZ4V.Model.Pool
+
+/-- LZ4F compression pipeline: for every worker count, number of chunks, last-chunk shape and schedule, a job that pushes
+    into its own pool (the reader chain) never finds the queue full (capacity 4 in `TPool_create(nbWorkers, 4)`) -/
+theorem lz4f_reader_chain_never_blocks (nFull : Nat) (part : Bool) (w : Nat) (s : State)
+    (h : ReachFrom (igniteLZ4F nFull part w 4) s) : s.queue.length < s.cap :=
+  push_never_blocks (igniteLZ4F_inv nFull part w 4) (by show 3 ≤ 4; decide) h
+
+/-- legacy compression pipeline, same statement -/
+theorem legacy_reader_chain_never_blocks (nFull : Nat) (part : Bool) (w : Nat) (s : State)
+    (h : ReachFrom (igniteLegacy nFull part w 4) s) : s.queue.length < s.cap :=
+  push_never_blocks (igniteLegacy_inv nFull part w 4) (by show 3 ≤ 4; decide) h
+
+theorem reach_workers {s0 s : State} (h : ReachFrom s0 s) : s.workers = s0.workers := by
+  induction h with
+  | refl => rfl
+  | step _ st ih => cases st <;> simpa using ih
+
+/-- **no deadlock**: every reachable state of the compression pool that still has work (a queued or running job) has an
+    enabled step, for every worker count ≥ 1 -/
+theorem compression_pool_deadlock_free (s0 s : State) (h0 : Inv s0) (hc : 3 ≤ s0.cap) (hw : 1 ≤ s0.workers)
+    (h : ReachFrom s0 s)
+    (hwork : s.queue ≠ [] ∨ 0 < s.runC ∨ s.runR.isSome) : ∃ s', Step s s' := by
+  have hroom := push_never_blocks h0 hc h
+  have hws := reach_workers h
+  by_cases hC : 0 < s.runC
+  · exact ⟨_, Step.finC s hC⟩
+  · cases hR : s.runR with
+    | some r =>
+      obtain ⟨k, pc⟩ := r
+      cases pc with
+      | start =>
+        by_cases hk : k < s.nFull ∨ (k = s.nFull ∧ s.partialLast)
+        · exact ⟨_, Step.pushC s k hR hk hroom⟩
+        · exact ⟨_, Step.eof s k hR hk⟩
+      | pushedC =>
+        by_cases hk : k < s.nFull
+        · exact ⟨_, Step.pushR s k hR hk hroom⟩
+        · exact ⟨_, Step.lastC s k hR hk⟩
+      | done => exact ⟨_, Step.finR s k hR⟩
+    | none =>
+      -- nothing is running: a queued job can be popped because at least one worker is free
+      have hq : s.queue ≠ [] := by
+        rcases hwork with h | h | h
+        · exact h
+        · exact absurd h hC
+        · rw [hR] at h; simp at h
+      have hb : busy s < s.workers := by
+        unfold busy; rw [hR]; simp; omega
+      cases hql : s.queue with
+      | nil => exact absurd hql hq
+      | cons j rest =>
+        cases j with
+        | C k => exact ⟨_, Step.popC s k rest hql hb⟩
+        | R k => exact ⟨_, Step.popR s k rest hql hb hR⟩
+
+/-- **each block written exactly once, in input order**, whatever order the compression workers finish in -/
+theorem blocks_written_in_order_once (pay : Nat → List UInt8) (n : Nat) (arrival : List Nat)
+    (hall : ∀ r, r ∈ arrival ↔ r < n) (hnd : arrival.Nodup) :
+    (WR.run (arrival.map (fun r => (r, pay r)))).out = (List.range n).map pay ∧
+    (WR.run (arrival.map (fun r => (r, pay r)))).stored = [] :=
+  ⟨(WR.in_order_once pay n arrival hall hnd).1, (WR.in_order_once pay n arrival hall hnd).2.1⟩
+
+/-- non-vacuity: three jobs arriving in the order 2, 0, 1 are written 0, 1, 2 -/
+example : (WR.run [(2, [30]), (0, [10]), (1, [20])]).out = [[10], [20], [30]] := by decide
+
 end LZ4V.C13
